@@ -1,0 +1,13 @@
+//! Verification hook for property C34 (compiled only with `--cfg libp2p_verif`).
+//!
+//! Child module of `config`: hands out the builder's current `Config` WITHOUT running
+//! `ConfigBuilder::build`'s validation, so that the harness can also exercise the heartbeat
+//! arithmetic on parameter sets `build` rejects (the model's `panic` branches).
+
+use super::{Config, ConfigBuilder};
+
+/// `builder.config.clone()` (what `build` returns after its checks).
+pub fn config_unchecked(builder: &ConfigBuilder) -> Config {
+    builder.config.clone()
+}
+pub use super::TopicMeshConfig;
